@@ -96,7 +96,9 @@ def dsge_ops(h: Harness, rng):
     for _ in range(h.n(60, 600)):
         def mk():
             ks = [k for k in keypool if rng.random() < 0.7]
-            return dsge_mod.Genotype(ScriptedSource([]), {k: [rng.randrange(0, 1025) for _ in range(rng.randint(0, 4))] for k in ks})
+            # (creation draws genes in 0..1024; mutation rewrites a gene with a value up to sys.maxsize)
+            return dsge_mod.Genotype(ScriptedSource([]), {k: [rng.randrange(0, 1025) if rng.random() < 0.6 else rng.randrange(0, 2**62)
+                                                              for _ in range(rng.randint(0, 4))] for k in ks})
         p1, p2 = mk(), mk()
         draws = [rng.randrange(0, 10**6) for _ in range(10)]
         s1, s2 = linear.dsge_sx(p1.dna, b), linear.dsge_sx(p2.dna, b)
@@ -238,6 +240,9 @@ def generations_corpus():
                    C("Block", False, None, [("stmts", ("ann", ("list", ("cls", 0)), ("listSize", 1, 2)))])], 3, [1, 2]),
         gram.Spec([C("Node", True, None), C("Leaf", False, 0, [("k", ("ann", "int", ("intRange", 0, 9)))]), C("Call", False, 0, [("p", ("cls", 3))]),
                    C("Prog", False, None, [("body", ("cls", 0))])], 3, [1, 2]),
+        # a start class that defines __len__ (added after the classes are built): an EMPTY program is falsy
+        gram.Spec([C("Stmt", True, None), C("Inc", False, 0, [("n", ("ann", "int", ("intRange", 0, 9)))]), C("Nest", False, 0, [("body", ("cls", 3))]),
+                   C("Program", False, None, [("stmts", ("ann", ("list", ("cls", 0)), ("listSize", 0, 2)))])], 3, [1, 2]),
     ]
 
 
@@ -252,6 +257,8 @@ def tree_crossover_generations(h: Harness, rng):
             if not gram.concrete_recursive_start(spec, rng):
                 continue
         b = gram.build(spec)
+        if spec.classes[spec.start].name == "Program":
+            b.classes[spec.start].__len__ = lambda self: len(self.stmts)
         try:
             g = b.extract()
         except Exception:  # noqa: BLE001
